@@ -2105,7 +2105,12 @@ func opcodeCheckMultiSig(op *ParsedOpcode, t *thread) error {
 		return errs.NewError(errs.ErrTooManyOperations, "exceeded max operation limit of %d", t.cfg.MaxOps())
 	}
 
-	pubKeys := make([][]byte, 0, numPubKeys)
+	// the count is untrusted: reserve no more than the stack can supply
+	numAvailable := int(t.dstack.Depth())
+	if numAvailable > numPubKeys {
+		numAvailable = numPubKeys
+	}
+	pubKeys := make([][]byte, 0, numAvailable)
 	for i := 0; i < numPubKeys; i++ {
 		pubKey, err := t.dstack.PopByteArray() //nolint:govet // ignore shadowed error
 		if err != nil {
